@@ -19,6 +19,7 @@ package scram
 // SASLprep). The clause names the constructor; that NewClient does normalise is the library's documented behaviour.
 //@ func Mechanism
 //@   option noframe
+//@   option only callsite callsite-reach post
 //@   modifies heap
 //@   assume scram.HashGeneratorFcn.NewClient applies SASLprep to user name and password (xdg-go/scram documentation); NewClientUnprepped does not
 //@   requires !isnil(algo)
